@@ -160,6 +160,8 @@ impl IdMap {
             }
         };
 
+        let start = self.ensure_i2e_page(pager, start, internal_id as u64)?;
+
         // For now, only persist first label in I2E (backward compat)
         let first_label = labels.first().copied().unwrap_or(0);
         write_i2e_record(
@@ -185,6 +187,34 @@ impl IdMap {
             flags: 0,
         });
         Ok(())
+    }
+
+    /// The node table is addressed as `start + n`, so it must occupy consecutive
+    /// pages. When the record opens a new page and that page already belongs to
+    /// another structure, the table is moved to a fresh run of pages first.
+    fn ensure_i2e_page(
+        &mut self,
+        pager: &mut Pager,
+        start: PageId,
+        internal_id_u64: u64,
+    ) -> Result<PageId> {
+        let (page_id, offset) = i2e_location(start, internal_id_u64)?;
+        if offset != 0 || page_id == start || !pager.is_page_allocated(page_id) {
+            return Ok(start);
+        }
+
+        let used_pages = page_id.as_u64() - start.as_u64();
+        let new_start = pager.allocate_contiguous(used_pages + 1)?;
+        for i in 0..used_pages {
+            let page = pager.read_page(PageId::new(start.as_u64() + i))?;
+            pager.write_page(PageId::new(new_start.as_u64() + i), &page)?;
+        }
+        pager.set_i2e_start_page(Some(new_start))?;
+        self.i2e_start = Some(new_start);
+        for i in 0..used_pages {
+            pager.free_page(PageId::new(start.as_u64() + i))?;
+        }
+        Ok(new_start)
     }
 
     /// Add a label to an existing node.
